@@ -54,6 +54,7 @@ let table : (string * (z list -> z)) list = [
   ("graphic", judge_graphic);
   ("network", judge_network);
   ("repmat", judge_repmat);
+  ("camion", judge_camion);
 ]
 
 let () =
